@@ -19,6 +19,7 @@ func checkC07(p *Prog, r *Report) {
 	r.rule("R11 splice loops: " + "after X = append(X[:a], X[b:]...) inside a loop over the removed index, the loop must leave, count downwards, or continue at an index <= a (so the element that moved down is examined)")
 	r.rule("R8b prefix pruning: strings.HasPrefix between two items of a list whose items are later split on a delimiter must test the shorter item followed by that delimiter")
 	r.rule("R4 error discipline and (value, nil) / (nothing, error) returns for NewURLFromRaw, NewURL, NewParams")
+	r.rule("C07.collection-detection: the to-one/to-many question for a relationship URL is answered by the relationship named by the last fragment, looked up in the type named by the first fragment")
 	r.rule("C07.fields-default: every write to params.Fields outside the defaulting loop (which replaces an empty selection by all fields of the type) is followed by that loop on every path to the successful return")
 	r.rule("C07.sort-name-tests: in the loop over the caller's sorting rules the comparison with \"id\" and the comparisons with the attribute names are applied to one and the same value (the rule stripped of its dash), so every valid rule is kept")
 	r.rule("C07.member-append: in NewParams every string appended to a result list is a constant, or is guarded by an equality with \"id\", with an attribute name of the schema type, or with an element of Type.Fields(), or comes from a list built that way")
@@ -72,6 +73,7 @@ func checkC07(p *Prog, r *Report) {
 	checkMemberAppends(p, r, np)
 	checkSortNameTests(p, r, np)
 	checkFieldsDefault(p, r, "C07")
+	checkCollectionDetection(p, r, np)
 	checkIDTotal(p, r, np)
 	checkURLTypeExists(p, r)
 }
@@ -916,4 +918,61 @@ func checkFieldsDefault(p *Prog, r *Report, prefix string) {
 			"this write to the field selections can happen after (or without) the loop that replaces empty selections by all fields: an empty selection survives, so the type's resources are marshaled without fields and String() prints an empty fields[...] parameter")
 	})
 	r.floor("writes to params.Fields before the defaulting loop", n, 3)
+}
+
+// checkCollectionDetection: for a relationship URL NewParams decides whether
+// the target is a collection from the relationship named by the last path
+// fragment, looked up in the type named by the FIRST fragment (the owner of
+// the relationship), not in the target type.
+func checkCollectionDetection(p *Prog, r *Report, f *ssa.Function) {
+	n := 0
+	eachInstr(f, func(ins ssa.Instruction) {
+		lk, ok := ins.(*ssa.Lookup)
+		if !ok {
+			return
+		}
+		base, fl, ok := fieldLoad(lk.X)
+		if !ok || fl != "Rels" {
+			return
+		}
+		// only the lookup whose ToOne decides the collection question: the key is the last fragment
+		isFragment := func(v ssa.Value) (idxConst int64, last bool, ok bool) {
+			ld, isLd := v.(*ssa.UnOp)
+			if !isLd || ld.Op != token.MUL {
+				return 0, false, false
+			}
+			ia, isIA := ld.X.(*ssa.IndexAddr)
+			if !isIA {
+				return 0, false, false
+			}
+			if _, f2, ok := fieldLoad(ia.X); !ok || f2 != "Fragments" {
+				return 0, false, false
+			}
+			if k, isC := constInt(ia.Index); isC {
+				return k, false, true
+			}
+			return 0, true, true
+		}
+		if _, last, ok := isFragment(lk.Index); !ok || !last {
+			return
+		}
+		n++
+		// the type: GetType(<fragment 0>)
+		var gt *ssa.Call
+		if c, _ := callOf(base); c != nil {
+			gt = c
+		} else if al, isAl := base.(*ssa.Alloc); isAl {
+			if sv := singleStore(al); sv != nil {
+				gt, _ = callOf(sv)
+			}
+		}
+		good := false
+		if gt != nil && gt.Common().StaticCallee() != nil && funcName(gt.Common().StaticCallee()) == "(*Schema).GetType" {
+			if k, last, ok := isFragment(gt.Common().Args[1]); ok && !last && k == 0 {
+				good = true
+			}
+		}
+		r.decide(good, "C07.collection-detection", "NewParams:"+p.describe(lk), p.pos(lk.Pos()), "the relationship of the last fragment is looked up in the type of the first fragment", "whether a relationship URL denotes a collection is decided from a relationship looked up in a type other than the one named by the first path fragment: for a to-many relationship whose target has a to-one relationship of the same name the sorting rules are dropped")
+	})
+	r.floor("collection-detection lookups in NewParams", n, 1)
 }
